@@ -2221,6 +2221,23 @@ class Normaliser:
                 self.generic_visit(node)
                 return self._flat(node)
 
+            def visit_DictComp(self, node):
+                self.generic_visit(node)
+                # {K(x): V(x) for x in (c1, c2, ..)} over a literal table of atoms, x new  ->  {K(c1): V(c1), ..}
+                if len(node.generators) == 1 and not node.generators[0].ifs and not node.generators[0].is_async:
+                    gen = node.generators[0]
+                    tn = tnames(gen.target)
+                    if tn and not (tn & known) and isinstance(gen.iter, (ast.Tuple, ast.List)):
+                        elems = norm._table_elements(gen.iter, tn)
+                        if elems is not None and len(elems) <= 16 and all(isinstance(n, (ast.Constant, ast.Tuple, ast.List, ast.UnaryOp, ast.USub, ast.Load)) for e in elems for n in ast.walk(e)) \
+                                and not any(isinstance(n, (ast.Lambda,) + COMPS) for x in (node.key, node.value) for n in ast.walk(x)):
+                            binds = [norm._bind_target(gen.target, e) for e in elems]
+                            if all(b is not None for b in binds):
+                                norm.log.append(f'N7 {path}::{qual}: dictionary comprehension over a literal table of {len(elems)} constants written out')
+                                return ast.copy_location(ast.Dict(keys=[_Rename({}, b).visit(copy.deepcopy(node.key)) for b in binds],
+                                                                  values=[_Rename({}, b).visit(copy.deepcopy(node.value)) for b in binds]), node)
+                return node
+
             def visit_Attribute(self, node):
                 self.generic_visit(node)
                 v = node.value
